@@ -15,6 +15,7 @@ func init() {
 		ruleP1(c, "C13.P1")
 		ruleP2(c, "C13.P2")
 		ruleP3(c, "C13.P3")
+		ruleP4(c, "C13.P4")
 	}
 }
 
@@ -289,5 +290,79 @@ func ruleP3(c *Ctx, id string) {
 		R.Check(okFattr, id, "nfs.Ls3|attributes of the entry's inode", P.Pos(af.Pos()), "attributes are computed from the inode passed by the scanner", "ip.MkFattr()", "attributes of another inode")
 		R.Check(okFh, id, "nfs.Ls3|handle of the entry's inode", P.Pos(af.Pos()), "the handle is (ip.Inum, ip.Gen) of that inode", "fields of ip", "handle of another object")
 		R.Check(okId, id, "nfs.Ls3|file id is the entry's number", P.Pos(af.Pos()), "Fileid is the inode number of the directory entry", "inum parameter", "file id of another object")
+	}
+}
+
+// ruleP4: end-of-directory is reported only when the scan ran off the end.
+func ruleP4(c *Ctx, id string) {
+	V, P, R := c.V, c.P, c.R
+	R.Rule(id, "end-of-directory is honest: the scanners return eof = true only along the exit of the scan loop through its own bound test (offset < directory size is false); a page that stops at a limit returns the constant false", 2)
+	for _, spec := range []string{"dir.Apply", "dir.ApplyEnts"} {
+		s := c.fn(id, spec)
+		if s == nil {
+			continue
+		}
+		R.Analysed[FuncName(s)] = true
+		offPhi := stepPhi(s, constOfPkg(P, "dir", "DIRENTSZ"))
+		// the bound test: off < dip.Size
+		var bound *Branch
+		for _, br := range branches(s) {
+			br := br
+			n, fl, base, _ := loadedField(br.Cond.Y)
+			if br.Cond.Op == token.LSS && offPhi != nil && br.Cond.X == ssa.Value(offPhi) && n == V.Inode && fl == "Size" && base == ssa.Value(s.Params[0]) {
+				bound = &br
+			}
+		}
+		if bound == nil {
+			R.Undecided(id, spec+"|bound test", P.Pos(s.Pos()), "the scan loop tests offset < directory size", "no such test found")
+			continue
+		}
+		ok, why, n := true, "", 0
+		var visit func(v ssa.Value, pred *ssa.BasicBlock, seen map[ssa.Value]bool)
+		visit = func(v ssa.Value, pred *ssa.BasicBlock, seen map[ssa.Value]bool) {
+			if phi, isPhi := v.(*ssa.Phi); isPhi {
+				if seen[phi] {
+					return
+				}
+				seen[phi] = true
+				for i, e := range phi.Edges {
+					if e == ssa.Value(phi) {
+						continue
+					}
+					visit(e, phi.Block().Preds[i], seen)
+				}
+				return
+			}
+			n++
+			b, isb := constBool(v)
+			if !isb {
+				ok, why = false, "eof is computed ("+v.String()+"), not the constant of an exit"
+				return
+			}
+			if b {
+				// true must enter through the loop header: either the initial value (flows into the header's phi)
+				// or the bound test's false edge
+				if pred != nil && pred != bound.Block && !pred.Dominates(bound.Block) {
+					ok, why = false, "the constant true reaches the result from "+pred.String()+", not through the bound test"
+				}
+			}
+		}
+		for _, b := range s.Blocks {
+			if r, isR := b.Instrs[len(b.Instrs)-1].(*ssa.Return); isR && len(r.Results) == 1 {
+				res := r.Results[0]
+				if phi, isPhi := res.(*ssa.Phi); isPhi {
+					for i, e := range phi.Edges {
+						pred := phi.Block().Preds[i]
+						if bv, isb := constBool(e); isb && bv && pred != bound.Block {
+							ok, why = false, "eof = true on an exit that is not the bound test"
+						}
+						visit(e, pred, map[ssa.Value]bool{})
+					}
+				} else {
+					visit(res, nil, map[ssa.Value]bool{})
+				}
+			}
+		}
+		R.Check(ok && n > 0, id, spec+"|eof only at the end", P.Pos(s.Pos()), "the result is true only through the loop's bound test and the constant false at every limit exit", fmt.Sprintf("%d constant sources, true only via the bound test", n), why+": a page that ends before the last entry reports end-of-directory, the remaining entries are never returned")
 	}
 }
